@@ -73,8 +73,9 @@ def base_worlds(r, n):
                     m["fin"] = True
         elif kind == "paused":
             target["life"] = 1
-            for o in allobjs:
-                if r.random() < 0.7:
+            for oi, o in enumerate(allobjs):
+                # the fixed paused world has a member missing (a paused ObjectSet only observes; its pass must still succeed)
+                if r.random() < 0.7 and not (wi < len(fixed) and oi == 0):
                     store.append(member(o, [[okind, 10, 100, 1]], 2))
         elif kind == "collision":
             for o in allobjs:
